@@ -325,10 +325,15 @@ def rhist_model_cfg(case):
     return cfg
 
 
+def rhist_penv(case, run):
+    """the parent environment AT THE TIME OF THAT CALL (os.environ is added to / changed / deleted from between runs)"""
+    return run.get("penv", case["penv"])
+
+
 def rhist_lines(case):
     cfg = rhist_model_cfg(case)
-    return [run_line({"cmd": r["cmd"], "kw": rhist_model_kw(r), "cfg": cfg, "cfg_timeout": case["cfg_timeout"], "penv": case["penv"]})
-            for r in case["runs"]]
+    return [run_line({"cmd": r["cmd"], "kw": rhist_model_kw(r), "cfg": cfg, "cfg_timeout": case["cfg_timeout"],
+                      "penv": rhist_penv(case, r)}) for r in case["runs"]]
 
 
 def expected_writes(case, run):
@@ -362,14 +367,16 @@ def check_rhist(case, defaults):
         if run["w"] not in ("absent", None):
             extra["watchers"] = make_watchers(run["w"], run.get("flavour", "stateless"))
         kw_model = rhist_model_kw(run)
-        line, facts = observe_run(r.run, lambda: r, run["cmd"], kw_model, case["penv"], extra_kw=extra, echo_probe=True)
+        penv = rhist_penv(case, run)
+        line, facts = observe_run(r.run, lambda: r, run["cmd"], kw_model, penv, extra_kw=extra, echo_probe=True)
         lines.append(line)
         if why is not None:
             continue
         w = oracle_run({"cmd": run["cmd"], "kw": kw_model, "cfg": cfg_model, "cfg_timeout": case["cfg_timeout"],
-                        "penv": case["penv"]}, facts, defaults)
+                        "penv": penv}, facts, defaults)
         if w:
-            why = "run #%d of %d on one runner object: %s" % (i + 1, len(case["runs"]), w)
+            why = "run #%d of %d on one runner object (parent environment at the earlier calls: %r): %s" % (
+                i + 1, len(case["runs"]), [rhist_penv(case, x) for x in case["runs"][:i]], w)
             continue
         got = sorted(x.decode("utf-8", "replace") for x in r.stdin_writes)
         ran = facts["exc"] is None and facts["started"] is not None and not facts["opts"].get("disown")
@@ -389,14 +396,40 @@ def check_rhist_real(case):
     from invoke.watchers import Responder
     r = Local(Context(Config(lazy=True)))
     got = []
+    saved = os.environ.get("VERIF_X")
+    try:
+        return _rhist_real_runs(case, r, got, Responder)
+    finally:
+        if saved is None:
+            os.environ.pop("VERIF_X", None)
+        else:
+            os.environ["VERIF_X"] = saved
+
+
+def _rhist_real_runs(case, r, got, Responder):
     for run in case["runs"]:
         answered = run["w"] not in ("absent", None, [])
         cmd = "printf 'name? '; read -t %s a; echo \"got:$a\"" % ("5" if answered else "0.25")
         kw = dict(hide=True, in_stream=False, warn=True)
         if run["w"] != "absent":
             kw["watchers"] = None if run["w"] is None else [Responder("name\\? ", resp) for resp in run["w"]]
-        res = r.run(cmd, **kw)
         want = "name? got:%s\n" % (run["w"][0].strip() if answered else "")
+        if "x" in run:  # the parent environment is edited between the runs; the child reports what it sees
+            if run["x"] is None:
+                os.environ.pop("VERIF_X", None)
+            else:
+                os.environ["VERIF_X"] = run["x"]
+            seen = run["x"]
+            if run.get("env") is not None:
+                kw["env"] = dict(run["env"])
+                seen = run["env"].get("VERIF_X", seen)
+                if run.get("replace"):
+                    kw["replace_env"] = True
+                    kw["env"].setdefault("PATH", os.environ.get("PATH", "/usr/bin:/bin"))
+                    seen = run["env"].get("VERIF_X")
+            cmd += "; echo \"env:${VERIF_X-unset}\""
+            want += "env:%s\n" % ("unset" if seen is None else seen)
+        res = r.run(cmd, **kw)
         got.append(res.stdout)
         if res.stdout != want:
             return "|".join(got), ("run #%d on one real Local runner (watchers of this call: %r, of the earlier calls: %r): the child "
@@ -1247,6 +1280,8 @@ def run(ctx):
                 cfg[k] = rng.choice(DOM_CFG[k])
         cfg_w = rng.choice(["absent", "absent", [], [list(rng.choice(PATS))]])
         runs, prev = [], []
+        edit_env = i % 2 == 0
+        cur_env = dict(PENV)
         for j in range(rng.randint(2, 4)):
             kw = {}
             for k in rh_keys:
@@ -1262,14 +1297,34 @@ def run(ctx):
             cfgp = [p for p, _ in cfg_w] if cfg_w != "absent" else []
             mention = list(dict.fromkeys(prev + own + cfgp + ([rng.choice(PATS)[0]] if rng.random() < 0.3 else [])))
             rng.shuffle(mention)
-            runs.append({"cmd": "CMD-%d-%d" % (i, j), "kw": kw, "w": w, "out": gen_out(mention),
-                         "exited": 0, "flavour": rng.choice(["stateless", "responder"])})
+            run = {"cmd": "CMD-%d-%d" % (i, j), "kw": kw, "w": w, "out": gen_out(mention),
+                   "exited": 0, "flavour": rng.choice(["stateless", "responder"])}
+            # os.environ is added to / changed / deleted from between the runs; env / replace_env per run
+            if edit_env:
+                for _ in range(rng.randint(0, 2) if j else 0):
+                    x = rng.random()
+                    if x < 0.4:
+                        cur_env[rng.choice(["NEW", "N2", "B"])] = rng.choice(["1", "two", ""])
+                    elif x < 0.7 and cur_env:
+                        cur_env[rng.choice(sorted(cur_env))] = rng.choice(["changed", "c2"])
+                    elif cur_env:
+                        del cur_env[rng.choice(sorted(cur_env))]
+                run["penv"] = dict(cur_env)
+                if rng.random() < 0.5:
+                    kw["env"] = rng.choice(DOM_KW["env"][1:])
+                if rng.random() < 0.3:
+                    kw["replace_env"] = rng.choice([True, False, None])
+            runs.append(run)
             prev = list(dict.fromkeys(prev + own))
         cases.append({"kind": "rhist", "cfg": cfg, "cfg_w": cfg_w, "cfg_timeout": rng.choice([None, None, 9]), "penv": PENV,
                       "runs": runs})
     for seq in ([["y\n"], "absent"], [["y\n"], [], ["z\n"], None]) if not big else (
             [["y\n"], "absent"], [["y\n"], [], ["z\n"], None], ["absent", ["q\n"], "absent"], [["a\n"], ["b\n"], "absent"]):
         cases.append({"kind": "rhist_real", "runs": [{"w": w} for w in seq]})
+    for seq in ([("1", None, False), ("2", None, False), (None, None, False)],
+                [("a", {"VERIF_X": "mine"}, False), ("b", {"OTHER": "o"}, False), ("c", {"OTHER": "o"}, True), ("d", None, False)]):
+        cases.append({"kind": "rhist_real", "runs": [{"w": "absent" if k else ["y\n"], "x": x, "env": e, "replace": rp}
+                                                      for k, (x, e, rp) in enumerate(seq)]})
 
     for kwp, cfgp, ws in itertools.product(["absent", None, "pw", ""], [None, "secret"], [False, True]):
         cases.append({"kind": "sudopw", "kw": kwp, "cfg": cfgp, "watchers": ws})
@@ -1311,6 +1366,15 @@ def run(ctx):
             got, why = check_rhist(c, defaults)
             out.hist["rhist"] += 1
             out.hist["rhist:runs"] += len(c["runs"])
+            for a, b in zip(c["runs"], c["runs"][1:]):
+                if "penv" in b:
+                    pa, pb = a["penv"], b["penv"]
+                    out.hist["rhist:parent-env-%s-between-runs" % ("unchanged" if pa == pb else "edited")] += 1
+                    if pa != pb:
+                        for nm, cond in (("added", set(pb) - set(pa)), ("deleted", set(pa) - set(pb)),
+                                         ("changed", [k for k in pa if k in pb and pa[k] != pb[k]])):
+                            if cond:
+                                out.hist["rhist:parent-env-" + nm] += 1
             for a, b in zip(c["runs"], c["runs"][1:]):
                 had = a["w"] not in ("absent", None, [])
                 out.hist["rhist:%s-then-%s" % ("watchers" if had else "none",
